@@ -49,10 +49,7 @@ pub fn main(args: &Args) {
         while k < napps || only == Some(k) {
             let mut rng = Rng::derive(seed, 0x0410_0000 + k);
             let m: AppModel = routelab::gen_app(&mut rng);
-            let port = {
-                let l = TcpListener::bind("127.0.0.1:0").unwrap();
-                l.local_addr().unwrap().port()
-            };
+            let port = hvcommon::net::free_port("127.0.0.1");
             let addr: SocketAddr = format!("127.0.0.1:{}", port).parse().unwrap();
             let cancel = CancellationToken::new();
             let mut app: App<()> = App::new_with_config(()).with_shutdown(cancel.clone());
